@@ -660,6 +660,12 @@ def merge_stats(a, b):
 
 def replay_generic(payload, monitor=None, impl_env=None):
     line = payload["case"]
+    if line.split(" ")[0] == "NETSAME":
+        # adapter vs in-memory client on the same reply: the harness evaluates the equality itself
+        build_harness("harness_net")
+        im = run_lines(os.path.join(TARGET, "debug", "harness_net"), [line], shards=1, env=dict(ENV, VERIF_NET_WATCHDOG="60"))[0]
+        print("case : %s\nimpl : %s\nmodel: same" % (line[:3000], im[:3000]))
+        return 0 if im.startswith("same") else 1
     rel = payload.get("impl_binary")
     if rel and rel.startswith("release/"):
         build_harness(os.path.basename(rel), release=True)
